@@ -32,6 +32,9 @@ func violatingTable() []violating {
 		s("in=(a/b)", "c"), s("include=(zz)", "abc"), s("phone", "123"), s("email", "x"), s("idcard", "12"), s("ip", "1.2.3"), s("ipv4", "::1"), s("ipv6", "1.2.3.4"),
 		s("year", "96"), s("year2month", "1996"), s("year2month=/", "1996-01"), s("date", "1996-13-01"), s("date='.'", "1996-01-01"), s("datetime", "1996-01-01"), s("datetime='/, ,:'", "1996-01-01 00:00:00"),
 		s("int", "1a"), s("ints", "1,a"), s("ints=-", "1,2"), s("float", "1"), s("unique", "a,a"), s("json", "{"), s("prefix=zz", "abc"), s("suffix=zz", "abc"),
+		// CJK in the rule's own argument or in the judged value: the label follows the message alone
+		s("in=(男/女)", "x"), s("in=('好,的'/是)", "否"), s("include=(测试)", "abc"), s("prefix=测试", "abc"), s("suffix=验证", "abc测试"), s("to=1~2", "测试测"), s("phone", "手机号"),
+		s("ints=、", "1,2"), s("date='年'", "1996-01-01"), s("eq=2", "长度一"),
 		s("required", ""), s("file", "DIR"), s("dir", "FILE"), s("file", "MISSING"), s("dir", "MISSING"),
 		{item: "re='^a$'", t: desc.Scalar("string"), v: desc.Str("b"), re: "^a$"},
 		{item: "to=1~2", t: desc.Scalar("int"), v: desc.V{I: 5}}, {item: "ge=5", t: desc.Scalar("uint8"), v: desc.V{U: 2}}, {item: "eq=2", t: desc.Scalar("float64"), v: desc.V{F: 2.5}},
